@@ -72,9 +72,21 @@ def run_game_traces(ctx, scenario, shards, games, plies, extra=None, timeout=300
     return bad, events, histories
 
 
-def absorb_game(ctx, bad, evs):
+FOREIGN = {"key", "keyStable", "keyRestored", "sum", "inv", "seen", "gfm"}
+
+
+def absorb_game(ctx, bad, evs, own=()):
+    """game events rejected by TLC become violations of ctx.prop; differences that only concern the position key,
+    the redundant summaries, the repetition count or the Game's own counter belong to C05 / C12 / C17 / C16 and
+    are not judged here unless the caller names them in `own`"""
     n = 0
     for b in bad:
+        d = set(b.get("diff", []))
+        if d and d <= (FOREIGN - set(own)):
+            k = "%s:%s" % (b.get("ev"), ",".join(sorted(d)))
+            other = ctx.extra.setdefault("differences_in_other_jurisdictions", {})
+            other[k] = other.get(k, 0) + 1
+            continue
         if b.get("ev") in evs:
             n += 1
             ctx.violation(b["why"], {"binding": "B2 trace validation (Trace_Engine, game events)", "event_line": b["bad"], "event": b.get("ev"),
